@@ -248,11 +248,13 @@ BoolFalse == {<<"f">>, <<"f","a","l","s","e">>, <<"0">>, <<"o","f","f">>, <<"n",
 
 ---------------------------------------------------------------------------
 (* abstract file system for FilenameField: the character "$" stands for the scratch root
-   directory of the harness; under it  f  is a regular file,  d  a directory,  m  missing. *)
+   directory of the harness; under it  f  is a regular file,  d  a directory holding the
+   regular file  g,  m  missing. *)
 IsAbsPath(s) == s # <<>> /\ s[1] \in {"/", "$"}
 FsKind(p) ==
     CASE p = <<"$", "/", "f">> -> "file"
       [] p = <<"$", "/", "d">> -> "dir"
+      [] p = <<"$", "/", "d", "/", "g">> -> "file"
       [] p = <<"$">>           -> "dir"
       [] OTHER                 -> "missing"
 \* relative names are looked up from the process's working directory, which the harness
@@ -323,7 +325,10 @@ BytesValidate(f, v) ==
 FilenameCheck(f, s) ==
     IF s = <<>> THEN Ok(StrV(s))
     ELSE
-    LET p == IF ~IsAbsPath(s) /\ f.startdir # <<>> THEN f.startdir \o <<"/">> \o s ELSE s
+    LET \* os.path.abspath(os.path.join(startdir, value)): a relative start directory is taken
+        \* from the working directory (the scratch root), so the result is always absolute
+        sd == IF IsAbsPath(f.startdir) THEN f.startdir ELSE <<"$", "/">> \o f.startdir
+        p == IF ~IsAbsPath(s) /\ f.startdir # <<>> THEN sd \o <<"/">> \o s ELSE s
         k == FsLookup(p)
     IN  IF f.exists = "true" /\ k = "missing" THEN Fail("ValueError")
         ELSE IF f.exists = "false" /\ k # "missing" THEN Fail("ValueError")
